@@ -10,6 +10,7 @@ too); plus a hand-written list of parsable-but-unexpected values, record-level
 malformations injected on the wire, and post-handshake messages.  Every
 execution is run to completion under a step budget with Python call counting.
 """
+import copy
 import struct
 import zlib
 
@@ -452,6 +453,36 @@ def signed_ske_case(item):
 
 def _hs(t, body):
     return bytes([t]) + len(body).to_bytes(3, "big") + bytes(body)
+
+
+_ODD_CERTS = {}
+
+
+def odd_curve_cert(curve):
+    """DER of a self-signed certificate with a key on `curve` (openssl CLI,
+    once per process); None when openssl cannot make one."""
+    if curve in _ODD_CERTS:
+        return _ODD_CERTS[curve]
+    import subprocess
+    import tempfile
+    import shutil
+    d = tempfile.mkdtemp(prefix="c08-cert-")
+    der = None
+    try:
+        r = subprocess.run(
+            ["openssl", "req", "-x509", "-newkey", "ec", "-pkeyopt",
+             "ec_paramgen_curve:" + curve, "-nodes", "-keyout", d + "/k.pem",
+             "-out", d + "/c.der", "-outform", "DER", "-subj", "/CN=odd",
+             "-days", "3650"], capture_output=True, timeout=60)
+        if r.returncode == 0:
+            with open(d + "/c.der", "rb") as f:
+                der = f.read()
+    except Exception:   # noqa
+        der = None
+    finally:
+        shutil.rmtree(d, ignore_errors=True)
+    _ODD_CERTS[curve] = der
+    return der
 
 
 def semantic_cases():
@@ -909,6 +940,20 @@ def semantic_cases():
             else:
                 C.append(("cert-" + nm, sel, "C", "CERT",
                           cert_list(certs, tls13)))
+    # well-formed certificates with keys on curves the library can parse
+    # but has no TLS signature scheme for (made with the openssl CLI)
+    for curve in ("brainpoolP320r1", "brainpoolP224r1", "secp224r1"):
+        der = odd_curve_cert(curve)
+        if der is None:
+            continue
+        for sel, tls13 in (("TLS1.2-ECDHE_RSA-GCM", False),
+                           ("TLS1.3-RSA", True)):
+            C.append(("cert-curve-" + curve, sel, "C", "CERT",
+                      cert_list([der], tls13)))
+        C.append(("client-cert-curve-" + curve, "TLS1.2-RSA-clientauth", "S",
+                  "CERT", cert_list([der], False)))
+        C.append(("client-cert-curve-" + curve, "TLS1.3-RSA-clientauth", "S",
+                  "CERT", cert_list([der], True)))
     for nm, certs in junk:
         if certs is None:
             continue
@@ -1131,6 +1176,15 @@ def semantic_case(item):
     if not cand:
         return name, sel, victim, None, [], None
     sc = cand[0]
+    if tok == "CERT" and sc.version >= (3, 4):
+        # TLS 1.3 endpoints compress their certificates by default; these
+        # cases are about the plain Certificate message
+        sc = copy.copy(sc)
+        sc.cset = dict(sc.cset)
+        sc.sset = dict(sc.sset)
+        for st_ in (sc.cset, sc.sset):
+            st_["certificate_compression_send"] = []
+            st_["certificate_compression_receive"] = []
     r = run_one(sc, seed, victim, {}, meter=True)
     pair, pup, out, m = r
     base_calls = m.calls
@@ -1612,9 +1666,11 @@ def run(res, tier, seed):
     cases = semantic_cases()
     ns = 0
     peaks = {}
+    skipped = []
     for (name, scn, victim, sig, fails, peak) in pmap(
             semantic_case, [(i, tier, seed) for i in range(len(cases))]):
         if sig is None:
+            skipped.append("%s@%s" % (name, scn))
             continue
         ns += 1
         res.count()
@@ -1628,7 +1684,16 @@ def run(res, tier, seed):
                               "case": name, "fail": text},
                           {"semantic": name, "scenario": scn})
     res.section("semantic", cases=len(cases), executed=ns,
+                not_applicable=len(skipped),
+                not_applicable_examples=sorted(skipped)[:8],
                 peak_bytes_bomb_cases=peaks)
+    if len(skipped) > len(cases) // 10:
+        # a case whose message never occurs in its scenario says nothing:
+        # more than a handful means the catalogue lost touch with the code
+        res.violation({"kind": "vacuous-semantic-cases"},
+                      {"not_executed": len(skipped), "of": len(cases),
+                       "examples": sorted(skipped)[:20]},
+                      {"semantic": "vacuous"})
     rc = record_cases()
     ritems = []
     for ri in range(len(rc)):
